@@ -864,9 +864,9 @@ func ruleResultIndex(r *Run) {
 		"payload is lo.Range(len(rs.Requests)) and the accumulator is made with the same length: one slot per operation",
 		"the batch fan-out is no longer `lo.Range(len(rs.Requests))` over an accumulator of the same length: the number/positions of results can differ from the number of operations")
 
-	indexField := func(v ssa.Value) *ssa.Store {
-		// a store `v.index = idxParam`
-		for _, ins := range allInstrs(mapF) {
+	indexField := func(f *ssa.Function, v ssa.Value, idx ssa.Value) *ssa.Store {
+		// a store `v.index = idx`
+		for _, ins := range allInstrs(f) {
 			st, ok := ins.(*ssa.Store)
 			if !ok {
 				continue
@@ -875,14 +875,14 @@ func ruleResultIndex(r *Run) {
 			if !ok || fa.X != v {
 				continue
 			}
-			if f := fieldOf(fa); f != nil && f.Name() == "index" && unwrap(st.Val) == ssa.Value(idxParam) {
+			if fld := fieldOf(fa); fld != nil && fld.Name() == "index" && unwrap(st.Val) == idx {
 				return st
 			}
 		}
 		return nil
 	}
-	fieldStore := func(v ssa.Value, field string) *ssa.Store {
-		for _, ins := range allInstrs(mapF) {
+	fieldStore := func(f *ssa.Function, v ssa.Value, field string) *ssa.Store {
+		for _, ins := range allInstrs(f) {
 			st, ok := ins.(*ssa.Store)
 			if !ok {
 				continue
@@ -897,47 +897,107 @@ func ruleResultIndex(r *Run) {
 	g := &gateInfo{r: r}
 	g.compute(r.P.CG.Reachable([]*ssa.Function{qh}, nil))
 	n := 0
-	for _, ret := range returnsOf(mapF) {
-		vals := retVals(ret)
-		if len(vals) != 2 {
-			continue
-		}
-		n++
-		site := r.P.pos(retPos(ret))
-		if !isNilConst(unwrap(vals[1])) {
-			r.Bad(rule, name, "returned error", site, "the per-operation closure returns an error: AsyncMapReduce then records no result for this slot and the response array has a null hole; failures must be returned as a Result with Errors")
-		}
-		var cands []ssa.Value
-		if p, ok := vals[0].(*ssa.Phi); ok {
-			cands = append(cands, p.Edges...)
-		} else {
-			cands = []ssa.Value{vals[0]}
-		}
-		for _, v := range cands {
-			v = unwrap(v)
-			if helperSetsIndex(r, v, idxParam) {
-				r.OK(rule, name, "Result.index", site, "the Result is built by a helper that stores the operation index it is given into index on every return")
+	// checkReturns looks at every return of f — the per-operation closure, or a function of the
+	// module the closure (transitively) returns the result of, handing it the operation index as
+	// parameter idx: `return g.executeOperation(index, rs.Requests[index]), nil`. resAt/errAt are
+	// the positions of the Result and of the error among f's results (errAt < 0: none).
+	var checkReturns func(f *ssa.Function, idx ssa.Value, resAt, errAt int, gated bool, depth int)
+	checkReturns = func(f *ssa.Function, idx ssa.Value, resAt, errAt int, gated bool, depth int) {
+		fname := fnName(f)
+		for _, ret := range returnsOf(f) {
+			vals := retVals(ret)
+			if resAt >= len(vals) || errAt >= len(vals) {
 				continue
 			}
-			st := indexField(v)
-			if st == nil || !instrDominates(st, ret) {
-				r.Bad(rule, name, "Result.index", site, "a Result is returned whose index field is not set from the closure's operation index on this path: the reducer would place it in slot 0 (overwriting another operation's result) and leave its own slot null")
-				continue
+			site := r.P.pos(retPos(ret))
+			errFromCallee := map[*ssa.Call]bool{}
+			if errAt >= 0 && !isNilConst(unwrap(vals[errAt])) {
+				// the error of the very helper whose Result is returned is judged inside that helper
+				if ex, ok := unwrap(vals[errAt]).(*ssa.Extract); ok {
+					if c, ok := ex.Tuple.(*ssa.Call); ok {
+						if rx, ok := unwrap(vals[resAt]).(*ssa.Extract); ok && rx.Tuple == ssa.Value(c) {
+							errFromCallee[c] = true
+						}
+					}
+				}
+				if len(errFromCallee) == 0 {
+					n++
+					r.Bad(rule, fname, "returned error", site, "the per-operation closure returns an error: AsyncMapReduce then records no result for this slot and the response array has a null hole; failures must be returned as a Result with Errors")
+				}
 			}
-			r.OK(rule, name, "Result.index", site, "index is stored from the closure parameter before the return")
-			// failure results: returned before the gate ⇒ Data nil, Errors set
-			if !g.validated[mapF][ret.Block()] {
-				d := fieldStore(v, "Data")
-				e := fieldStore(v, "Errors")
-				okData := d == nil || isNilConst(unwrap(d.Val))
-				okErr := e != nil && !isNilConst(unwrap(e.Val))
-				if _, isAlloc := v.(*ssa.Alloc); isAlloc {
-					r.Check(okData && okErr, rule, name, "validation-failure Result", site,
-						"Data is nil and Errors is set on a result returned before validation succeeded",
-						"a result returned on a validation-failure path carries data or no errors (C07: invalid ⇒ data null + errors)")
+			var cands []ssa.Value
+			if p, ok := vals[resAt].(*ssa.Phi); ok {
+				cands = append(cands, p.Edges...)
+			} else {
+				cands = []ssa.Value{vals[resAt]}
+			}
+			for _, v := range cands {
+				v = unwrap(v)
+				if helperSetsIndex(r, v, idx) {
+					n++
+					r.OK(rule, fname, "Result.index", site, "the Result is built by a helper that stores the operation index it is given into index on every return")
+					continue
+				}
+				// the result of a module function that is handed the index: its returns
+				var hc *ssa.Call
+				hres, herr := 0, -1
+				switch x := v.(type) {
+				case *ssa.Call:
+					hc = x
+				case *ssa.Extract:
+					if c, ok := x.Tuple.(*ssa.Call); ok {
+						hc, hres = c, x.Index
+					}
+				}
+				if hc != nil && depth < 3 {
+					if sc := hc.Call.StaticCallee(); sc != nil {
+						if d := r.P.declared(sc); inModule(d) && d.Blocks != nil && indexField(f, v, idx) == nil {
+							pi := -1
+							for i, a := range hc.Call.Args {
+								if unwrap(a) == idx {
+									pi = i
+								}
+							}
+							res := d.Signature.Results()
+							for i := 0; i < res.Len(); i++ {
+								if isErrorish(res.At(i).Type()) && i != hres {
+									herr = i
+								}
+							}
+							if pi >= 0 && pi < len(d.Params) && (herr < 0 || errFromCallee[hc]) {
+								if !errFromCallee[hc] {
+									herr = -1
+								}
+								checkReturns(d, d.Params[pi], hres, herr, gated || g.validated[f][hc.Block()], depth+1)
+								continue
+							}
+						}
+					}
+				}
+				n++
+				st := indexField(f, v, idx)
+				if st == nil || !instrDominates(st, ret) {
+					r.Bad(rule, fname, "Result.index", site, "a Result is returned whose index field is not set from the closure's operation index on this path: the reducer would place it in slot 0 (overwriting another operation's result) and leave its own slot null")
+					continue
+				}
+				r.OK(rule, fname, "Result.index", site, "index is stored from the operation index before the return")
+				// failure results: returned before the gate ⇒ Data nil, Errors set
+				if !gated && !g.validated[f][ret.Block()] {
+					d := fieldStore(f, v, "Data")
+					e := fieldStore(f, v, "Errors")
+					okData := d == nil || isNilConst(unwrap(d.Val))
+					okErr := e != nil && !isNilConst(unwrap(e.Val))
+					if _, isAlloc := v.(*ssa.Alloc); isAlloc {
+						r.Check(okData && okErr, rule, fname, "validation-failure Result", site,
+							"Data is nil and Errors is set on a result returned before validation succeeded",
+							"a result returned on a validation-failure path carries data or no errors (C07: invalid ⇒ data null + errors)")
+					}
 				}
 			}
 		}
+	}
+	if mapF.Signature.Results().Len() == 2 {
+		checkReturns(mapF, idxParam, 0, 1, false, 0)
 	}
 	r.AtLeast(rule, "returns of the per-operation closure", n, 4)
 
@@ -983,7 +1043,9 @@ func ruleResultIndex(r *Run) {
 }
 
 // ruleClosureIsolation (R3c): the per-operation closure of queryHandler writes only memory it
-// allocated itself.
+// allocated itself. The closure's code is the closure plus the functions of its package it
+// calls (its body may live in a method): there a write through a parameter is judged by what
+// the callers inside that code pass in.
 func ruleClosureIsolation(r *Run) {
 	const rule = "R3c"
 	qh := r.Anchor(rule, "pebbles.(*Gateway).queryHandler")
@@ -994,8 +1056,14 @@ func ruleClosureIsolation(r *Run) {
 	if mapF == nil {
 		return
 	}
-	name := fnName(mapF)
 	n := 0
+	pkg := topFn(mapF).Pkg
+	region := r.P.CG.Reachable([]*ssa.Function{mapF}, func(e *Edge) bool { return e.Kind != "static" || topFn(e.Callee).Pkg != pkg })
+	var fns []*ssa.Function
+	for f := range region {
+		fns = append(fns, f)
+	}
+	sort.Slice(fns, func(i, j int) bool { return fnName(fns[i]) < fnName(fns[j]) })
 	rootOf := func(addr ssa.Value) ssa.Value {
 		for {
 			switch x := addr.(type) {
@@ -1008,32 +1076,80 @@ func ruleClosureIsolation(r *Run) {
 			}
 		}
 	}
-	for _, ins := range allInstrs(mapF) {
-		var addr ssa.Value
-		switch x := ins.(type) {
-		case *ssa.Store:
-			addr = x.Addr
-		case *ssa.MapUpdate:
-			addr = x.Map
-		default:
-			continue
-		}
-		n++
-		root := rootOf(addr)
-		site := r.P.pos(ins.Pos())
+	// own: the object root was made by this invocation of the closure's code
+	var own func(root ssa.Value, depth int) (bool, string)
+	own = func(root ssa.Value, depth int) (bool, string) {
 		switch rt := root.(type) {
-		case *ssa.Alloc:
-			r.OK(rule, name, "write to own allocation", site, "the written object was allocated by this invocation of the closure")
-		case *ssa.MakeMap, *ssa.MakeSlice:
-			r.OK(rule, name, "write to own allocation", site, "the written object was allocated by this invocation of the closure")
+		case *ssa.Alloc, *ssa.MakeMap, *ssa.MakeSlice:
+			return true, "the written object was allocated by this invocation of the closure"
 		case *ssa.Call:
 			// a value returned by a call (e.g. the introspection Result): fresh per invocation
 			if _, isPtr := rt.Type().Underlying().(*types.Pointer); isPtr {
-				r.OK(rule, name, "write to call result", site, "writes a field of an object returned to this invocation by "+calleeDesc(&rt.Call))
-			} else {
-				r.Bad(rule, name, "write", site, "the per-operation closure writes shared state")
+				return true, "writes a field of an object returned to this invocation by " + calleeDesc(&rt.Call)
 			}
-		default:
+			return false, ""
+		case *ssa.Parameter:
+			f := rt.Parent()
+			if f == mapF || depth > 3 {
+				return false, ""
+			}
+			k := -1
+			for i, p := range f.Params {
+				if p == rt {
+					k = i
+				}
+			}
+			sites := 0
+			for _, e := range r.P.CG.In[f] {
+				if e.Kind == "param" || !region[e.Caller] {
+					continue
+				}
+				if e.Kind != "static" || k < 0 || k >= len(e.Site.Common().Args) {
+					return false, ""
+				}
+				sites++
+				a := e.Site.Common().Args[k]
+				if ld, ok := a.(*ssa.UnOp); ok && ld.Op == token.MUL {
+					return false, "" // loaded from memory: whose it is cannot be told here
+				}
+				if ok, _ := own(rootOf(a), depth+1); !ok {
+					return false, ""
+				}
+			}
+			if sites == 0 {
+				return false, ""
+			}
+			return true, "the written object is handed in by the closure's own code, which allocated it"
+		}
+		return false, ""
+	}
+	for _, fn := range fns {
+		name := fnName(fn)
+		for _, ins := range allInstrs(fn) {
+			var addr ssa.Value
+			switch x := ins.(type) {
+			case *ssa.Store:
+				addr = x.Addr
+			case *ssa.MapUpdate:
+				addr = x.Map
+			default:
+				continue
+			}
+			n++
+			root := rootOf(addr)
+			site := r.P.pos(ins.Pos())
+			if ok, why := own(root, 0); ok {
+				what := "write to own allocation"
+				if _, isCall := root.(*ssa.Call); isCall {
+					what = "write to call result"
+				}
+				r.OK(rule, name, what, site, why)
+				continue
+			}
+			if _, isCall := root.(*ssa.Call); isCall {
+				r.Bad(rule, name, "write", site, "the per-operation closure writes shared state")
+				continue
+			}
 			r.Bad(rule, name, "write to captured/shared memory", site, fmt.Sprintf("the per-operation closure writes memory it did not allocate (%s): operations of one batch run concurrently and would interfere", root.String()))
 		}
 	}
@@ -1271,7 +1387,7 @@ func ruleWholeBodyDecode(r *Run) {
 // helperSetsIndex: v is the result of a call to a module function that, on every return,
 // yields a freshly built Result whose index field is stored from the parameter that receives
 // the closure's operation index at this call.
-func helperSetsIndex(r *Run, v ssa.Value, idx *ssa.Parameter) bool {
+func helperSetsIndex(r *Run, v ssa.Value, idx ssa.Value) bool {
 	c, ok := v.(*ssa.Call)
 	if !ok {
 		return false
@@ -1286,7 +1402,7 @@ func helperSetsIndex(r *Run, v ssa.Value, idx *ssa.Parameter) bool {
 	}
 	pi := -1
 	for i, a := range c.Call.Args {
-		if unwrap(a) == ssa.Value(idx) {
+		if unwrap(a) == idx {
 			pi = i
 		}
 	}
